@@ -319,6 +319,16 @@ def rule_tau(ctx, tu):
             ctx.check(used and len(same) == len(used), R, g.node, g.qual, "%s applied as %s" % (tab, sorted(set(used))[:2]),
                       "read back at the index it was stored at (%s)" % tgt, "counts are applied at another index than they were "
                       "drawn at")
+    # the time a step accounts for is the time the counts were drawn for: Iterate advances the clock by that same dt
+    for cn in TAU:
+        it = tu.fn(cn + "::Iterate")
+        adv = [s_ for s_ in cxa.all_stores(it.body) if s_.base == ("field", "t")]
+        ctx.need(adv, R, "%s: no clock update" % it.qual)
+        for s_ in adv:
+            rhs = uname(strip(s_.rhs, casts=True)) if s_.rhs is not None else None
+            ctx.check(s_.op == "+=" and rhs == "dt", R, s_.node, it.qual, text(s_.node)[:60], "the clock advances by the dt of "
+                      "Poisson(propensity x dt)", "the step advances the clock by `%s` while the firings were drawn for `dt`: over "
+                      "such a step the counts are not Poisson with mean propensity x elapsed time" % (rhs or text(s_.node)[:30]))
     # the sampler behind Poisson(lambda): every value it returns is 0 (for a non-positive mean) or one draw of
     # std::poisson_distribution constructed with that very mean, from the engine's generator
     for b in BASES:
